@@ -111,6 +111,54 @@ class Runner(Subject):
     return None
 
 
+class RunnerInPlace(Runner):
+  """Aggregate that mutates its state in place: a checkpoint must not share it with the live iterator."""
+  name = 'runner-inplace'
+
+  def build(self, n, kind, chain):
+    from ml_metrics._src.chainables import transform
+    from harness import lib
+    p = (transform.TreeTransform.new(name='s')
+         .data_source(_source(n, kind, chain))
+         .apply(fn=lib.add100)
+         .aggregate(fn=lib.CollectInPlace()))
+    return p.make().iterate()
+
+
+class RunnerMean(Runner):
+  """A shipped in-place metric (MeanAndVariance): count/mean/var after resume = uninterrupted."""
+  name = 'runner-meanvar'
+
+  def build(self, n, kind, chain):
+    from ml_metrics._src.aggregates import rolling_stats
+    from ml_metrics._src.chainables import transform
+    from harness import lib
+    p = (transform.TreeTransform.new(name='s')
+         .data_source(_source(n, kind, chain))
+         .apply(fn=lib.as_batch100)
+         .aggregate(fn=rolling_stats.MeanAndVariance().as_agg_fn()))
+    return p.make().iterate()
+
+  def next_value(self, x):
+    return x
+
+  def final_check(self, it, full):
+    import numpy as np
+    got = it.agg_result
+    if not full:
+      return None
+    vals = np.array([x + 100.0 for x in full])
+    want = (len(vals), float(vals.mean()), float(vals.var()))
+    try:
+      r = got[''] if isinstance(got, dict) and '' in got else (list(got.values())[0] if isinstance(got, dict) else got)
+      have = (int(r.count), float(r.mean), float(r.var))
+    except Exception as e:  # pylint: disable=broad-exception-caught
+      return f'cannot read MeanAndVariance result {got!r}: {e!r}'
+    if have[0] != want[0] or abs(have[1] - want[1]) > 1e-9 or abs(have[2] - want[2]) > 1e-9:
+      return f'final MeanAndVariance (count, mean, var) {have} != uninterrupted {want}'
+    return None
+
+
 class Chain2(Runner):
   name = 'chain2'
   offset = 101
@@ -134,7 +182,7 @@ class Chain2AggFirst(Chain2):
   agg_offset = 100
 
 
-SUBJECTS = [Raw(), Runner(), Chain2(), Chain2AggFirst()]
+SUBJECTS = [Raw(), Runner(), RunnerInPlace(), RunnerMean(), Chain2(), Chain2AggFirst()]
 
 
 def _replay(chk, h, subj):
@@ -152,6 +200,8 @@ def _replay(chk, h, subj):
       if op['op'] == 'next':
         try:
           got = next(it)
+          if hasattr(got, '__array__'):
+            got = int(got[0])
         except StopIteration:
           got = -1
         want = op['expect'] + subj.offset if op['expect'] >= 0 else -1
@@ -172,7 +222,7 @@ def _replay(chk, h, subj):
       return False
   # drain: what is left must be exactly the rest of the uninterrupted run
   try:
-    rest = list(it)
+    rest = [int(x[0]) if hasattr(x, '__array__') else x for x in it]
   except Exception as e:  # pylint: disable=broad-exception-caught
     chk.violation(f'{subj.name}:{kind}:drain:{type(e).__name__}', repr(e), ctx)
     return False
@@ -187,6 +237,27 @@ def _replay(chk, h, subj):
     chk.violation(f'{subj.name}:{kind}:gen{min(gens, 2)}:aggregate', f'{msg}; history {h["ops"]}', ctx)
     return False
   return True
+
+
+class _Collector:
+  """Stands in for the Check object inside worker processes."""
+
+  def __init__(self):
+    self.viols = []
+
+  def violation(self, sig, msg, rep):
+    if sum(1 for v in self.viols if v[0] == sig) < 3000:
+      self.viols.append((sig, msg, rep if sum(1 for v in self.viols if v[0] == sig) < 2 else {}))
+
+
+def _replay_subject(i, hs):
+  common.setup_repo_path()
+  col = _Collector()
+  okc = 0
+  for h in hs:
+    if _replay(col, h, SUBJECTS[i]):
+      okc += 1
+  return col.viols, okc
 
 
 def body(chk):
@@ -236,13 +307,15 @@ def body(chk):
   if not interesting:
     chk.machinery_failure('no history with two or more restores was generated')
   per_subject = {}
-  for subj in SUBJECTS:
-    okc = 0
-    for h in hs:
-      if _replay(chk, h, subj):
-        okc += 1
-      chk.replayed()
-    per_subject[subj.name] = dict(replayed=len(hs), conforming=okc)
+  import concurrent.futures as cf
+  with cf.ProcessPoolExecutor(max_workers=len(SUBJECTS)) as ex:
+    futs = [ex.submit(_replay_subject, i, hs) for i in range(len(SUBJECTS))]
+    for i, f in enumerate(futs):
+      viols, okc = f.result()
+      for sig, msg, rep in viols:
+        chk.violation(sig, msg, rep)
+      chk.replayed(len(hs))
+      per_subject[SUBJECTS[i].name] = dict(replayed=len(hs), conforming=okc)
   chk.coverage['subjects'] = per_subject
   chk.coverage['exhaustive'] = True
   chk.add_samples(interesting[:2])
